@@ -706,10 +706,13 @@ def relResult (honour : Bool) (b : URL) (r : Ref) : URL :=
 @[simp] theorem relResult_authorityText (honour : Bool) (b : URL) (r : Ref) :
     (relResult honour b r).authorityText = b.authorityText := rfl
 
-theorem navigate_rel (honour : Bool) (b : URL) (r : Ref) (hb : AbsBase b) :
+/-- round 3c: the explicit form holds for every base with a rooted path that has a host OR a non-empty path
+    (without a host the code does not re-root the merged path, so the base directory must carry the root marker
+    itself: `file:///a/b`, `foo:/a/b`) -/
+theorem navigate_rel_rooted (honour : Bool) (b : URL) (r : Ref) (segs : List Str) (hsegs : b.parts = [] :: segs)
+    (hh : b.host ≠ [] ∨ segs ≠ []) (hls : lower b.scheme = b.scheme) (hlh : lower b.host = b.host) :
     URL.navigateWith honour b (URL.ofRelRef r) = relResult honour b r := by
   unfold relResult
-  obtain ⟨segs, hsegs⟩ := hb.rooted
   have hpt := ofRelRef_pathText r
   unfold URL.navigateWith
   rw [hpt]
@@ -739,7 +742,9 @@ theorem navigate_rel (honour : Bool) (b : URL) (r : Ref) (hb : AbsBase b) :
               else b.parts.dropLast) = [] :: (b.parts.drop 1).dropLast := by
           rw [hsegs]
           cases segs with
-          | nil => simp [hb.host_ne]
+          | nil =>
+            have hne : b.host ≠ [] := hh.elim id (fun h => absurd rfl h)
+            simp [hne]
           | cons a t => simp [List.dropLast]
         rw [hbase]
         simp
@@ -755,9 +760,14 @@ theorem navigate_rel (honour : Bool) (b : URL) (r : Ref) (hb : AbsBase b) :
   have e7 : (URL.ofRelRef r).query = parseQsl (r.query.getD []) := by simp [URL.ofRelRef, URL.ofComponents]
   have e8 : (URL.ofRelRef r).fragment = r.fragment.getD [] := by simp [URL.ofRelRef, URL.ofComponents]
   have e9 : (URL.ofRelRef r).hasQuery = r.query.isSome := by simp [URL.ofRelRef, URL.ofComponents]
-  rw [e1, e2, e3, e4, e5, e6, e7, e8, e9, hb.lowerScheme, hb.lowerHost]
+  rw [e1, e2, e3, e4, e5, e6, e7, e8, e9, hls, hlh]
   cases b
   simp [relQuery]
+
+theorem navigate_rel (honour : Bool) (b : URL) (r : Ref) (hb : AbsBase b) :
+    URL.navigateWith honour b (URL.ofRelRef r) = relResult honour b r := by
+  obtain ⟨segs, hsegs⟩ := hb.rooted
+  exact navigate_rel_rooted honour b r segs hsegs (Or.inl hb.host_ne) hb.lowerScheme hb.lowerHost
 
 theorem flat_head (l : List Str) (h : (flat l).head? ≠ some '/') : flat l = [] := by
   cases l with
@@ -821,7 +831,7 @@ theorem relSegs_noSlash (segs : List Str) (r : Ref) (h : ∀ s ∈ segs, NoSlash
 /-- 5.2.2/5.2.3 for a relative reference against a base whose path text is `flat segs`:
     the path before dot-segment removal is the text of the merged segments -/
 theorem rfc_path_rel (base : Ref) (segs : List Str) (r : Ref) (hr : RelRef r)
-    (hauth : base.authority.isSome) (hpath : base.path = flat segs) (hns : ∀ s ∈ segs, NoSlash s) :
+    (hauth : base.authority.isSome ∨ segs ≠ []) (hpath : base.path = flat segs) (hns : ∀ s ∈ segs, NoSlash s) :
     (resolve base r).path =
       if r.path = [] then flat segs else removeDotSegments (flat (relSegs segs r)) := by
   unfold resolve relSegs
@@ -847,6 +857,7 @@ theorem rfc_path_rel (base : Ref) (segs : List Str) (r : Ref) (hr : RelRef r)
         rw [flat_eq_joinSlash _ (splitSlash_ne_nil _), joinSlash_splitSlash]
       rcases List.eq_nil_or_concat segs with hs | ⟨init, last, hs⟩
       · subst hs
+        have hauth : base.authority.isSome := hauth.elim id (fun h => absurd rfl h)
         simp [hauth, hpath, flat_nil, hfl]
       · subst hs
         have hne : flat (init.concat last) ≠ [] := by simp [flat]
@@ -859,7 +870,7 @@ theorem rfc_path_rel (base : Ref) (segs : List Str) (r : Ref) (hr : RelRef r)
 /-- the path `navigate` produces = the path of the RFC target -/
 theorem navigate_path_eq_rfc (b : URL) (segs : List Str) (r : Ref) (hr : RelRef r)
     (hp : b.parts = [] :: segs) (hns : ∀ s ∈ segs, NoSlash s) (base : Ref)
-    (hauth : base.authority.isSome) (hpath : base.path = flat segs)
+    (hauth : base.authority.isSome ∨ segs ≠ []) (hpath : base.path = flat segs)
     (hdf : r.path ≠ [] ∨ DotFree segs) :
     joinSlash (resolvePathParts (relParts b r)) = (resolve base r).path := by
   rw [relParts_eq b r segs hp, resolvePathParts_root, joinSlash_root,
@@ -916,7 +927,7 @@ theorem dotFree_root (segs : List Str) : DotFree ([] :: segs) ↔ DotFree segs :
     inherited base path removed too - RFC 3986 6.2.2.3; the statement's "normalized result") -/
 theorem navigate_path_eq_normalized_rfc (b : URL) (segs : List Str) (r : Ref) (hr : RelRef r)
     (hp : b.parts = [] :: segs) (hns : ∀ s ∈ segs, NoSlash s) (base : Ref)
-    (hauth : base.authority.isSome) (hpath : base.path = flat segs) :
+    (hauth : base.authority.isSome ∨ segs ≠ []) (hpath : base.path = flat segs) :
     joinSlash (resolvePathParts (relParts b r)) = removeDotSegments (resolve base r).path := by
   rw [relParts_eq b r segs hp, resolvePathParts_root, joinSlash_root,
     rfc_path_rel base segs r hr hauth hpath hns]
